@@ -914,7 +914,9 @@ def rules(tier):
             # session files hold one state
             ('C08.R25', _shared_rule('plumbing', 'writers_truncate')),
             # next() ends the run only on an empty heap
-            ('C08.R26', _shared_rule('plumbing', 'generator_glue'))]
+            ('C08.R26', _shared_rule('plumbing', 'generator_glue')),
+            # C08-ea: save_session pickles cur_guess.target_level in place of the cracker's target_level
+            ('C08.R27', _shared_rule('c15', 'r3_pickle_layout'))]
 
 
 META = {
